@@ -668,6 +668,23 @@ def materializeLoop (s : Sig) : List Param → Nat → Bool → Cfg → Except E
 
 def materializeDefaults (s : Sig) (c : Cfg) : Except Err Cfg := materializeLoop s s 0 true c
 
+/-- `fdl.assign(cfg, **kwargs)`: `setattr` one by one, in place; a rejected name ends it, the
+    edits made before persist. -/
+def assignAll (s : Sig) : Cfg → List (String × Val) → Cfg
+  | c, [] => c
+  | c, (n, v) :: r =>
+    match c.setAttr s n v with
+    | .ok c' => assignAll s c' r
+    | .error _ => c
+
+/-- Whether every name of an `assign` is accepted (`false`: the call raises). -/
+def assignOk (s : Sig) : Cfg → List (String × Val) → Bool
+  | _, [] => true
+  | c, (n, v) :: r =>
+    match c.setAttr s n v with
+    | .ok c' => assignOk s c' r
+    | .error _ => false
+
 end Cfg
 
 /-! ## The constructor: `signature.bind_partial` + canonicalisation -/
